@@ -1,7 +1,97 @@
 import KM.Driver.Core
-/-! Driver for C03 (stub until the property's model is built). -/
+import KM.Model.Validity
+import KM.Gen.C03
+/-! Driver for C03.  `model`: what the model predicts for an op of the harness;
+`judge`: the property predicates (`sshOK`, `windowOK`, `fixedOK`, `floatSecsAt`) applied to what
+the implementation returned. -/
 namespace KM.Driver.C03
+open KM.Util KM.Validity KM.Dur
 
-def handler (_mode : String) : Option Handler := none
+def shape : Shape := KM.Gen.C03.shape
+def L : Int := KM.Gen.C03.maxCertificateLifetime
+
+def parseReq (s : String) : Option Req :=
+  if s == "absent" then some .absent
+  else if s == "err" then some .malformed
+  else (s.toInt?).map Req.parsed
+
+/-- floor and ceiling of d / 1e9 -/
+def floorS (d : Int) : Int := d / ns
+def ceilS (d : Int) : Int := -((-d) / ns)
+
+def sshLife (req : Req) (t iat : Int) : Option Int :=
+  (sshIssue shape L truncSecs req t t iat).map fun w => w.2 - w.1
+
+def fixedLine (d : Int) (showD : Bool) : String :=
+  s!"200 {if showD then toString d else "-"} {floorS d} {ceilS d}"
+
+/-- model mode -/
+def model : List String → String
+  | ["cg", ty, p, iatLo, iatHi, tb, ta] =>
+    match parseReq p, iatLo.toInt?, iatHi.toInt?, tb.toInt?, ta.toInt? with
+    | some req, some iLo, some iHi, some tb, some ta =>
+      match certgenDuration shape L req ta iLo, certgenDuration shape L req tb iHi with
+      | .reject s, .reject _ => s!"{s} - -"
+      | .issue dLo, .issue dHi =>
+        if ty == "ssh" then
+          match sshLife req ta iLo, sshLife req tb iHi with
+          | some lo, some hi => s!"200 {lo} {hi}"
+          | _, _ => "stuck"
+        else if ty == "x509" || ty == "k8s" then s!"200 {floorS dLo} {ceilS dHi}"
+        else "bad-op"
+      | _, _ => "stuck"
+    | _, _, _, _, _ => "bad-op"
+  | ["role"] => fixedLine KM.Gen.C03.maxRoleRequestingCertDuration true
+  | ["aws"] => fixedLine KM.Gen.C03.awsTemplateLifetime false
+  | ["secs", n] =>
+    match n.toInt? with
+    | some d => toString ((truncSecs d) % two64)
+    | none => "bad-op"
+  | _ => "bad-op"
+
+def verdict (b : Bool) (what : String) : String := if b then "ok" else s!"viol {what}"
+
+/-- judge mode -/
+def judge : List String → String
+  | ["cg", ty, p, iat, tb, ta, status, va, vb] =>
+    match parseReq p, iat.toInt?, tb.toInt?, ta.toInt? with
+    | some req, some iat, some tb, some ta =>
+      if status == "PANIC" then "viol handler-panicked"
+      else if status != "200" then "ok"       -- nothing was issued
+      else match va.toInt?, vb.toInt? with
+        | some va, some vb =>
+          if ty == "ssh" then
+            verdict (sshOK req iat tb ta va vb)
+              s!"ssh ValidAfter={va} ValidBefore={vb} lifetime={vb - va}s"
+          else if ty == "x509" || ty == "k8s" then
+            verdict (windowOK req iat tb ta va vb)
+              s!"x509 NotBefore={va} NotAfter={vb} lifetime={vb - va}s"
+          else "bad-op"
+        | _, _ => "viol issued-but-undecodable"
+    | _, _, _, _ => "bad-op"
+  | [kind, _tb, ta, status, nb, na] =>
+    if kind != "role" && kind != "aws" then "bad-op" else
+    match ta.toInt? with
+    | some ta =>
+      if status == "PANIC" then "viol handler-panicked"
+      else if status != "200" then "ok"
+      else match nb.toInt?, na.toInt? with
+        | some nb, some na =>
+          verdict (fixedOK (if kind == "role" then roleCap else awsCap) ta nb na)
+            s!"{kind} NotBefore={nb} NotAfter={na} lifetime={na - nb}s"
+        | _, _ => "viol issued-but-undecodable"
+    | none => "bad-op"
+  | ["secs", n, v] =>
+    match n.toInt?, v.toInt? with
+    | some d, some u =>
+      if u < 0 || u ≥ two64 then "bad-op"
+      else verdict (floatSecsAt d (if u ≥ two63 then u - two64 else u)) s!"uint64(Duration({d}).Seconds())={u}"
+    | _, _ => "bad-op"
+  | _ => "bad-op"
+
+def handler (mode : String) : Option Handler :=
+  if mode == "model" then some (.pure model)
+  else if mode == "judge" then some (.pure judge)
+  else none
 
 end KM.Driver.C03
